@@ -11,6 +11,7 @@ import (
 	"go/types"
 	"os"
 	"path/filepath"
+	"regexp"
 	"sort"
 	"strings"
 
@@ -130,8 +131,16 @@ func qual(p *types.Package) string {
 	return shortPkg(p.Path())
 }
 
+var anyWord = regexp.MustCompile(`\bany\b`)
+
+// typeStr names a type; `any` is spelled interface{} so that both spellings of
+// the same type give the same heap families and type ids.
 func typeStr(t types.Type) string {
-	return types.TypeString(t, qual)
+	s := types.TypeString(t, qual)
+	if strings.Contains(s, "any") {
+		s = anyWord.ReplaceAllString(s, "interface{}")
+	}
+	return s
 }
 
 func sortedKeys[V any](m map[string]V) []string {
